@@ -75,7 +75,6 @@ WHY_MISSED = {
     "C11_20": "Cox tie test counting unique times over all samples: a value-dependent decision on runtime data",
     "C12_19": "label mapping relative to n_classes_ - 1: differs from the arithmetic mapping only for single-class training data",
     "C16_19": "hard-thresholding branch of prox_MCP for gamma below the step: agreement of alpha_max with the prox is decided on the usual step range only",
-    "C19_19": "group Lipschitz bound of the prox-Newton model taken as the largest column norm: a numeric bound on collinear columns, not visible structurally",
     "C19_20": "domain check of the Gamma datafit relaxed to y < 0: validity ranges of targets are not modelled",
     "C19_21": "order of the two threshold tests of prox_MCP: differs only at the fallback step (value of a prox far outside its step range, as C19_10)",
     "C10_14": "numpy's buffered `a[idx] += v` with repeated indices: a CSC matrix with duplicate entries is outside the input contract the CSC helpers already assume",
@@ -87,7 +86,6 @@ WHY_MISSED = {
     "C07_22": "prox_SCAD rewritten as a closed form that is the global minimiser for step < gamma - 1 only: every value it returns is still a stationary point; global optimality among stationary points is not claimed (§4 C07)",
     "C07_23": "prox_log_sum regime selector `alpha <= eps` (as C07_19): which stationary candidate is the global minimiser is not claimed (§4 C07)",
     "C09_22": "default iteration budget of the power method lowered to the documented 20 (as C09_21): accuracy after a generic start is not decided (§4 C09)",
-    "C19_22": "group Hessian bound of the prox-Newton model taken as the largest diagonal entry (as C19_19): a numeric bound on collinear columns, not visible structurally",
     "C20_18": "score array sized by the Lipschitz argument: only manifests through the recorded GroupBCD x LogisticGroup finding (per-feature constants, §8.2)",
 }
 
